@@ -241,9 +241,26 @@ def clm_accounting(F, S):
         out.append(ok("R-ACCT", inst, pi.loc(pi.body), pi.qn, req, "%s with headerSize = %d" % (fmt_term(off0), rec["size_bits"] // 8)))
     else:
         out.append(bad("R-ACCT", inst, pi.loc(pi.body), pi.qn, req, "offset starts at %s; headerSize argument %s" % (fmt_term(off0) if off0 else "?", fmt_term(wa.term(call[0]["args"][0])) if call else "?")))
-    steps = [nd for nd in pi.nodes if nd["k"] == "CompoundAssignOperator" and nd.get("op") == "+=" and pi.term(pi.kids(nd["id"])[0]) in roles]
+    # the step: `offset += e.dataLength`, or `offset = <offset + e.dataLength>` (possibly through a const local)
+    from .props.c05 import alias_defs, resolve
+    adefs = alias_defs(pi)
+    steps = []
+    incs = []
+    for nd in pi.nodes:
+        if is_store(nd) and pi.term(pi.kids(nd["id"])[0]) in roles and nd["k"] in ("CompoundAssignOperator", "BinaryOperator"):
+            l = pi.term(pi.kids(nd["id"])[0])
+            r = resolve(pi.term(pi.kids(nd["id"])[1]), {k: v for k, v in adefs.items() if k not in roles})
+            if nd.get("op") == "+=":
+                steps.append(nd)
+                incs.append(r)
+            elif nd.get("op") == "=" and r[0] == "op" and r[1] == "+" and l in (r[2], r[3]):
+                steps.append(nd)
+                incs.append(r[3] if r[2] == l else r[2])
+            else:
+                steps.append(nd)
+                incs.append(("?",))
     inst = CLM + "::PrepareIndex#step"
-    good = len(steps) == 1 and pi.term(pi.kids(steps[0]["id"])[1])[0] == "mem" and pi.term(pi.kids(steps[0]["id"])[1])[2] == "dataLength"
+    good = len(steps) == 1 and incs[0][0] == "mem" and incs[0][2] == "dataLength"
     if good:
         out.append(ok("R-ACCT", inst, pi.loc(steps[0]["id"]), pi.qn, "each later offset = previous offset + previous dataLength", "offset += indexEntries[i].dataLength"))
     else:
